@@ -139,6 +139,36 @@ fn main() {
                 }
             }
         }
+        "dist" => {
+            // Universal2DBox::dist_in_2r on pairs of boxes of DIFFERENT sizes; prints both boxes and both orders
+            use similari::utils::bbox::Universal2DBox;
+            for _ in 0..a.n {
+                let mk = |rng: &mut Rng| {
+                    let xc = rng.dyadic(-4000, 4000, 2);
+                    let yc = rng.dyadic(-4000, 4000, 2);
+                    let aspect = rng.dyadic(1, 64, 4);
+                    let h = rng.dyadic(1, 4000, 3);
+                    let angle = if rng.chance(1, 2) { None } else { Some(rng.dyadic(-64, 64, 3)) };
+                    Universal2DBox::new(xc, yc, angle, aspect, h)
+                };
+                let l = mk(&mut rng);
+                let mut r = mk(&mut rng);
+                if rng.chance(1, 2) {
+                    // near: within a few radii
+                    r.xc = l.xc + rng.dyadic(-64, 64, 3) * l.height / 8.0;
+                    r.yc = l.yc + rng.dyadic(-64, 64, 3) * l.height / 8.0;
+                }
+                let d1 = guarded(|| Universal2DBox::dist_in_2r(&l, &r));
+                let d2 = guarded(|| Universal2DBox::dist_in_2r(&r, &l));
+                println!(
+                    "dist {} l={},{},{},{} r={},{},{},{} lr={} rl={}",
+                    k, f32b(l.xc), f32b(l.yc), f32b(l.aspect), f32b(l.height),
+                    f32b(r.xc), f32b(r.yc), f32b(r.aspect), f32b(r.height),
+                    d1.map(f32b).unwrap_or("P".into()), d2.map(f32b).unwrap_or("P".into())
+                );
+                k += 1;
+            }
+        }
         "replay" => {
             // --file with lines: adds=... probes=...
             let txt = std::fs::read_to_string(a.file.expect("--file")).unwrap();
